@@ -73,7 +73,8 @@ def gen_cases(tier, seed):
                     n = rnd.choice([0, 1, 3]) if rnd.random() < 0.25 else rnd.choice([8, 20, 45])
                     cases.append({"kind": kind, "nodes": nodes, "ppn": ppn, "n": n, "flags": flags, "seed": rnd.randrange(1, 10 ** 9),
                                   "sim_seed": rnd.randrange(1, 10 ** 6)})
-    # strings with NUL bytes, kept apart so that their failures cannot mask anything else
+    # strings with NUL bytes, kept apart so that their failures cannot mask anything else; first the minimal directed one
+    cases.insert(0, {"kind": "set", "nodes": 1, "ppn": 1, "n": 2, "flags": 4 | 64, "seed": 1, "sim_seed": 1})
     for kind in (KINDS if tier != "quick" else ["map", "set", "bag"]):
         nodes, ppn = rnd.choice(LAYOUTS)
         cases.append({"kind": kind, "nodes": nodes, "ppn": ppn, "n": 12, "flags": 4 | rnd.choice([0, 1]), "seed": rnd.randrange(1, 10 ** 9),
@@ -207,7 +208,7 @@ def check_case(res, case, sr, model_ok):
              "c20-reload-content",
              missing=[show_elem(e) for e in list(miss)[:3]], extra=[show_elem(e) for e in list(extra)[:3]])
     for r, d in enumerate(per):
-        if collections.Counter(d["a"]) != collections.Counter(d["b"]):
+        if got_b == expect and collections.Counter(d["a"]) != collections.Counter(d["b"]):
             fail(f"rank {r}: reloaded local content differs from the original's", "c20-reload-rank", rank=r,
                  a=[show_elem(e) for e in d["a"][:4]], b=[show_elem(e) for e in d["b"][:4]])
             break
@@ -319,7 +320,7 @@ def check_case(res, case, sr, model_ok):
                 res.corr_failures.append({"relation": "string tokens of the file == Ser.escape of the stored strings, in order",
                                           "what": f"rank {r}: {len(toks)} tokens in file, {len(mine)} predicted, first difference at {i}",
                                           "case": dict(cs, rank=r, model=hx(mine[i]) if i < len(mine) else None, real=hx(toks[i]) if i < len(toks) else None)})
-        # (K3) reloaded store == rebuild (cLoad of every token), order included
+        # (K3) Ser.deserializeRank (Ser.serializeRank n c) old, with every string passed through Ser.cLoad, == reloaded state
         rq = []
         for r, d in enumerate(per):
             elems = []
@@ -327,14 +328,27 @@ def check_case(res, case, sr, model_ok):
                 lk = loaded.get(k, k)
                 lv = loaded.get(v, v) if isinstance(v, bytes) else v
                 elems.append(show_elem((lk if lk is not None else b"?", lv)))
-            rq.append("rebuild %s %s" % (DISC[kind], " ".join(elems)))
+            if kind in ("map", "multimap"):
+                dv = DV if case["flags"] & 16 else b""
+                extra = hx(loaded.get(dv, dv))
+            elif kind == "bag":
+                extra = str(d["cursor"])
+            elif kind in ("cset", "mapcount"):
+                extra = "5" if (kind == "mapcount" and case["flags"] & 16) else "0"
+            else:
+                extra = "unit"
+            rq.append("rt %s %d %s %s" % (DISC[kind], ranks, extra, " ".join(elems)))
         outs = C.model("ser", rq)
         for r, (d, o) in enumerate(zip(per, outs)):
-            pred = o.split()
+            w = o.split()
+            pred = w[2:]
             real = [show_elem(e) for e in d["b"]]
             if pred != real:
-                res.corr_failures.append({"relation": "reloaded store (iteration order) == Ser.rebuild (Ser.cLoad of the image)", "what": f"rank {r}",
-                                          "case": dict(cs, rank=r, model=pred[:6], real=real[:6])})
+                res.corr_failures.append({"relation": "reloaded store (iteration order) == Ser.deserializeRank (Ser.serializeRank ..) with Ser.cLoad strings",
+                                          "what": f"rank {r}", "case": dict(cs, rank=r, model=pred[:6], real=real[:6])})
+            if kind in ("map", "multimap") and d["extra"] != w[1]:
+                res.corr_failures.append({"relation": "default value after reload == image.extra", "what": f"rank {r}: real {d['extra']}, model {w[1]}",
+                                          "case": dict(cs, rank=r)})
     res.evaluations += 1
     res.traces_validated += ranks
     res.count(kind)
